@@ -452,4 +452,136 @@ pub fn run(cfg: &Cfg, rep: &mut Report) {
   let n = cfg.n(6_000, 600_000);
   super::thr::systematic_families(cfg, rep, 0xC05A, &[9, 9, 9], &|_, _| {}, &|o, s| super::thr::flatten_oracle(o, s));
   super::thr::campaign(cfg, rep, "thr", n, 0xC05F, &mut |r: &mut Rng| super::thr::random_scen(r, 9), &|o, s| super::thr::flatten_oracle(o, s));
+
+  // mixed battery: cold, hot AND timed (interval.take / timer) inners on the virtual clock,
+  // judged by invariants read off the tracked inners (conservation, per-inner order, limit, completion)
+  let total = cfg.n(40_000, 4_000_000);
+  let mut rng = Rng::new(cfg.seed ^ 0xC05B);
+  for i in 0..total {
+    let mut r = rng.fork();
+    if !cfg.mine(i) {
+      continue;
+    }
+    let id = format!("mixed:{}", i);
+    if !cfg.wants(&id) {
+      continue;
+    }
+    mixed_case(cfg, rep, &id, &mut r, kmax);
+  }
+}
+
+fn mixed_case(_cfg: &Cfg, rep: &mut Report, id: &str, r: &mut Rng, kmax: usize) {
+  use super::common::*;
+  use crate::gen::Pipe;
+  use crate::vtime::MS;
+  let k = 1 + r.below(kmax);
+  let flavor = [Flavor::Local, Flavor::Threads, Flavor::LocalPool][r.below(3)];
+  let sp = match r.below(6) {
+    0 | 1 | 2 => Spelling::MergeAll(1 + r.below(k + 1)),
+    3 => Spelling::ConcatAll,
+    4 => Spelling::FlatMap,
+    _ => Spelling::ConcatMap,
+  };
+  // inner i: items carry ids (i+1)*100 + n
+  let mut table = vec![];
+  let mut acts: Vec<TAct> = vec![];
+  let mut t = 0u64;
+  for i in 0..k {
+    let tag = Op::Map(MapF::Add(((i + 1) * 100) as i64));
+    let chain = match r.below(4) {
+      0 => Chain::new(Src::Interval([1, 2, 5][r.below(3)]), vec![Op::Take(1 + r.below(3)), tag, Op::Spy(SPY_BASE + i as u32)]),
+      1 => Chain::new(Src::Timer(V::I(0), [0, 1, 4][r.below(3)]), vec![tag, Op::Spy(SPY_BASE + i as u32)]),
+      2 => Chain::new(Src::Iter((0..r.below(3) as i64).map(V::I).collect()), vec![tag, Op::Spy(SPY_BASE + i as u32)]),
+      _ => {
+        // hot inner driven by timed script events
+        let mut tt = t;
+        for n in 0..r.below(4) {
+          tt += [0u64, 1, 3][r.below(3)] * MS;
+          acts.push(TAct { t: tt, act: Act::In(i + 1, N::Next(V::I(n as i64))) });
+        }
+        tt += [1u64, 2, 6][r.below(3)] * MS;
+        acts.push(TAct { t: tt, act: Act::In(i + 1, N::Complete) });
+        Chain::new(Src::Hot(i + 1), vec![tag, Op::Spy(SPY_BASE + i as u32)])
+      }
+    };
+    table.push(chain);
+    t += [0u64, 1, 2][r.below(3)] * MS;
+    acts.push(TAct { t, act: Act::In(0, N::Next(V::I(i as i64))) });
+  }
+  let outer_completes = r.chance(4, 5);
+  if outer_completes {
+    t += [0u64, 1, 5][r.below(3)] * MS;
+    acts.push(TAct { t, act: Act::In(0, N::Complete) });
+  }
+  acts.sort_by_key(|a| a.t);
+  let op = match sp {
+    Spelling::MergeAll(n) => Op::MergeAll(n, table),
+    Spelling::ConcatAll => Op::ConcatAll(table),
+    Spelling::FlatMap => Op::FlatMap(table),
+    _ => Op::ConcatMap(table),
+  };
+  let pipe = Pipe { chain: Chain::new(Src::Hot(0), vec![op]), n_hot: k + 1, acts, horizon: 400 * MS };
+  let policy = if flavor == Flavor::LocalPool || r.chance(1, 2) { Policy::Fifo } else { Policy::Any };
+  let late = r.chance(1, 3);
+  rep.evaluations += 1;
+  let fl = if flavor == Flavor::Threads { "_threads" } else { "" };
+  rep.set("operators_covered", &format!("{}{}", sp.name(), fl));
+  let out = run_pipe(flavor, &pipe, policy, late, r.next(), &mut |_, _, _| {});
+  let run = match out {
+    Err(p) => {
+      let kind = if p.starts_with(crate::conc::SELF_DEADLOCK) { "deadlock" } else { "panic" };
+      rep.violation(kind, &format!("{}{}[timed]", sp.name(), fl), id, json!({"chain": pipe.chain.show(), "panic": p}));
+      return;
+    }
+    Ok(r) => r,
+  };
+  rep.events += run.evs.len() as u64;
+  rep.count("mixed_cases_with_timed_inners", 1);
+  let outv = notes_of(&run.evs, 1);
+  // what the tracked inners delivered to the operator, in log order, and their life cycle
+  let mut inner_items: Vec<i64> = vec![];
+  let mut live: std::collections::HashSet<u32> = Default::default();
+  let (mut max_live, mut subs, mut completed) = (0usize, 0usize, 0usize);
+  for e in &run.evs {
+    if e.id >= SPY_BASE * 1000 {
+      match &e.k {
+        K::Subscribed => {
+          live.insert(e.id);
+          subs += 1;
+        }
+        K::N(N::Next(v)) => inner_items.push(v.int()),
+        K::N(N::Complete) => {
+          live.remove(&e.id);
+          completed += 1;
+        }
+        K::N(N::Err(_)) | K::UnsubCall => {
+          live.remove(&e.id);
+        }
+        _ => {}
+      }
+      max_live = max_live.max(live.len());
+    }
+  }
+  let got: Vec<i64> = outv.iter().filter_map(|n| if let N::Next(v) = n { Some(v.int()) } else { None }).collect();
+  let mut verdict: Option<(&str, String)> = None;
+  if max_live > sp.limit() {
+    verdict = Some(("limit_exceeded", format!("{} inners live at once, limit {}", max_live, sp.limit())));
+  } else if got != inner_items {
+    // every inner item exactly once, in the order the inners produced them
+    let mut a = got.clone();
+    a.sort();
+    let mut b = inner_items.clone();
+    b.sort();
+    verdict = Some((if a == b { "wrong_order" } else if a.len() < b.len() { "lost_item" } else { "wrong_items" }, format!("delivered {:?}, the inners produced {:?}", got, inner_items)));
+  } else if outer_completes && subs == k && completed == k && outv.last() != Some(&N::Complete) {
+    verdict = Some(("completion_missing", "outer and all inners completed, the output did not".into()));
+  } else if outv.last() == Some(&N::Complete) && (!outer_completes || completed < subs || subs < k) {
+    verdict = Some(("completion_early", format!("output completed with {} of {} inners subscribed, {} completed, outer completes: {}", subs, k, completed, outer_completes)));
+  }
+  if max_live >= 2 || subs > 1 {
+    rep.nontrivial.insert(hash64(&pipe));
+  }
+  if let Some((kind, why)) = verdict {
+    rep.violation(kind, &format!("{}{}[timed]", sp.name(), fl), id, json!({"chain": pipe.chain.show(), "acts": format!("{:?}", pipe.acts), "why": why, "observed": jn(&outv)}));
+  }
 }
